@@ -232,7 +232,10 @@ class Histories:
                     if integ == "saba":
                         sim.ri_whfast.coordinates = "jacobi"
                     lattice.apply_options(sim, integ, o)
-                    sim.gravity = "basic"
+                    if sim.gravity == "jacobi":
+                        # the library warns about a leftover JACOBI routine and tells the user to select another one;
+                        # the routines of the hybrid schemes it has to put back itself (it says so for MERCURIUS)
+                        sim.gravity = "basic"
                     sim.dt = dt0
                 count[1] += 1
                 m = self.measure(sim, inv0, 0.0)
@@ -388,6 +391,47 @@ class Flybys:
             iv = invariants(c)
             sc = inv0["scales"]
             t = LD(c.t)
+            m_ = (float(np.max(np.abs(iv["P"] - inv0["P"]))) / sc["P"],
+                  float(np.max(np.abs(iv["C"] - inv0["C"] - inv0["P"] * t))) / (sc["C"] + sc["P"] * abs(float(t))),
+                  float(np.max(np.abs(iv["L"] - inv0["L"]))) / max(iv["scales"]["L"], sc["L"]),
+                  float(abs(iv["E"] - inv0["E"]) / abs(inv0["Eint"])))
+            worst = [max(a, b) for a, b in zip(worst, m_)]
+        return worst
+
+
+class Pericentre:
+    """TRACE through pericentre passages that its switching condition hands to BS / IAS15, each prescription, both directions, on a
+    moving system: the invariants must not depend on the prescription"""
+    def __init__(self, rebound):
+        self.rebound = rebound
+
+    def __call__(self, task):
+        from . import c01
+        mode, e, sgn, n = task[:4]
+        prelude = task[4] if len(task) > 4 else None       # integrator used for three steps before TRACE is selected
+        rb.quiet()
+        rebound = self.rebound
+        G, bodies, P = c01.peri_bodies(e, 1e-3)
+        sim = rebound.Simulation()
+        sim.G = G
+        for b in bodies:
+            sim.add(m=b[0], x=b[1] + 0.3, y=b[2], z=b[3], vx=b[4] + 0.05, vy=b[5], vz=b[6] - 0.02)
+        if prelude:
+            sim.integrator = prelude
+            sim.dt = sgn * P / 400
+            sim.steps(3)
+            sim.synchronize()
+        sim.integrator = "trace"
+        sim.ri_trace.peri_mode = mode
+        sim.dt = sgn * P / n
+        inv0 = invariants(sim)
+        t_start = sim.t
+        worst = [0.0, 0.0, 0.0, 0.0]
+        for k in range(3 * n // 10):
+            sim.steps(10)
+            iv = invariants(sim)
+            sc = inv0["scales"]
+            t = LD(sim.t - t_start)
             m_ = (float(np.max(np.abs(iv["P"] - inv0["P"]))) / sc["P"],
                   float(np.max(np.abs(iv["C"] - inv0["C"] - inv0["P"] * t))) / (sc["C"] + sc["P"] * abs(float(t))),
                   float(np.max(np.abs(iv["L"] - inv0["L"]))) / max(iv["scales"]["L"], sc["L"]),
@@ -577,6 +621,30 @@ def run(ctx):
             ctx.violation("flyby-energy:%s" % integ, "%s: |dE/E| reached %.3g" % (lab, w[3]), case)
         if w[2] > (1e-12 if integ == "ias15" else 1e-8):
             ctx.violation("flyby-angular-momentum:%s" % integ, "%s: angular momentum changed by %.3g of its scale" % (lab, w[2]), case)
+    # ---- E' pericentre passages under TRACE
+    PM = ("PARTIAL_BS", "FULL_BS", "FULL_IAS15")
+    pt = [(mode, e, sgn, n) for mode in PM for e in (0.8, 0.9) for sgn in (1, -1) for n in (40, 80)]
+    pt += [(mode, 0.9, 1, 40, pre) for mode in PM for pre in ("whfast", "saba", "eos", "leapfrog")]
+    pres = pool.run_tasks(Pericentre(rebound), pt, timeout=300, chunk=1)
+    pw = {}
+    for t, r in zip(pt, pres):
+        lab = "TRACE peri_mode=%s, inner planet e=%g, %d steps per period %s, three periods, moving system%s" % (t[0], t[1], t[3], "forward" if t[2] > 0 else "backward", ", after three steps of %s" % t[4] if len(t) > 4 else "")
+        case = {"pericentre": list(t)}
+        if r[0] != "ok":
+            ctx.violation("pericentre-run-%s:%s" % (r[0], t[0]), "%s: %s %s" % (lab, r[0], str(r[1])[-300:]), case)
+            continue
+        w = r[1]
+        pw[t] = w
+        rn = math.sqrt(3 * t[3])
+        if w[0] > 1024 * U * rn:
+            ctx.violation("pericentre-momentum:%s" % t[0], "%s: total momentum changed by %.3g of its scale" % (lab, w[0]), case)
+        elif w[1] > 1024 * U * rn:
+            ctx.violation("pericentre-com:%s" % t[0], "%s: the centre of mass left its straight line by %.3g of its scale" % (lab, w[1]), case)
+    for t, w in pw.items():
+        best = min(pw.get((mo,) + t[1:4], [0, 0, 0, float("inf")])[3] for mo in PM)       # (the runs without a prelude)
+        if w[3] > 10 * best + 1e-9:
+            ctx.violation("pericentre-energy:%s%s" % (t[0], ":after-" + t[4] if len(t) > 4 else ""), "TRACE peri_mode=%s, inner planet e=%g, %d steps per period %s%s: |dE/E| reached %.3g, with another pericentre prescription (used from the start) %.3g" % (
+                t[0], t[1], t[3], "forward" if t[2] > 0 else "backward", ", after three steps of %s" % t[4] if len(t) > 4 else "", w[3], best), {"pericentre": list(t)})
     # ---- D
     dt = [(n, pat, nvar, soft, offs) for n in range(1, 7) for pat in ("equal", "ratio", "zero") for nvar in (0, 1) for soft in (0, 1) for offs in (0.0, 1e6)]
     dres = pool.run_tasks(Diagnostics(rebound), dt, timeout=300, chunk=4)
@@ -595,7 +663,7 @@ def run(ctx):
         "evaluations": len(cfgs) * blocks + nt + len(mt) * 40 + len(dt),
         "distinct_nontrivial": len(cfgs) + nh + len(mt) + len(dt),
         "rule": "A: lattice runs (each measured at %d synchronisation points); B: distinct operation histories of depth <= %d over %d initial configurations x %d operations (measured after every operation); C: insertion orders x integrators x merge times; D: diagnostic cases" % (blocks, depth, len(INITIAL), len(OPS)),
-        "lattice_runs": len(cfgs), "histories": nh, "history_transitions": nt, "merge_runs": len(mt), "flyby_runs": len(ft), "merge_steps_seen": merged_steps, "diagnostic_cases": len(dt),
+        "lattice_runs": len(cfgs), "histories": nh, "history_transitions": nt, "merge_runs": len(mt), "flyby_runs": len(ft), "pericentre_runs": len(pt), "merge_steps_seen": merged_steps, "diagnostic_cases": len(dt),
         "worst_over_rounding": {k: round(v, 3) for k, v in worst.items()}, "exhaustive": True, "samples": [cfgs[0]],
     }
     return ctx.finish(LEVEL, cov, assumptions=[
